@@ -672,6 +672,230 @@ def answerNet (pre post : List String) : String :=
     | _, _, _ => "bad-case parse-net"
   | _ => "bad-case shape-net"
 
+/-! ## val suite: the real topic validator against `validate` / `gstep` -/
+
+def parseValStep (s : String) : Option (Char × Nat × Nat) :=
+  if s.startsWith "T" then (dropS s 1).toNat?.map (fun p => ('T', p, 0))
+  else if s.startsWith "D" then (dropS s 1).toNat?.map (fun p => ('D', p, 0))
+  else if s.startsWith "M" then (parsePair "." (dropS s 1)).map (fun p => ('M', p.1, p.2))
+  else none
+
+def answerVal (pre post : List String) : String :=
+  match pre with
+  | [mode, hist] =>
+    match (splitSemi hist).mapM parseValStep, kvArg "v=" post, kvArg "it=" post with
+    | some steps, some vW, some itW =>
+      let vs := if vW == "-" then [] else vW.toList.map (· == '1')
+      let its := if itW == "-" then [] else itW.toList.map (· == '1')
+      let nm := (steps.filter (fun q => q.1 == 'M')).length
+      if vs.length != nm || its.length != nm || (mode != "A" && mode != "L") then "bad-case val-shape" else
+      -- model: the gated composed replica; a message carries one fresh delta, accepted iff the replica changed
+      let g0 : GSt := { c := { me := ⟨0, 2⟩ }, t := ⟨0, mode == "A", []⟩ }
+      let sim := steps.foldl (fun (acc : GSt × List Bool × List ValEv × List Bool × Nat) q =>
+        let (g, mv, evs, vrest, i) := acc
+        if q.1 == 'T' then ((gstep ⟨1, 1⟩ g (.trust q.2.1)).getD g, mv, evs ++ [.trust q.2.1], vrest, i)
+        else if q.1 == 'D' then ((gstep ⟨1, 1⟩ g (.distrust q.2.1)).getD g, mv, evs ++ [.distrust q.2.1], vrest, i)
+        else
+          let d : Delta := ⟨2 * i + 1, 1, [(i, 1)], []⟩
+          let g' := (gstep ⟨1, 1⟩ g (.msg q.2.2 q.2.1 [d])).getD g
+          (g', mv ++ [g'.c.got.length != g.c.got.length], evs ++ [.msg q.2.1 q.2.2 (vrest.headD false)], vrest.drop 1, i + 1))
+        (g0, [], [], vs, 0)
+      let (_, mv, evs, _, _) := sim
+      let fl := failed (valClauses { trustAll := mode == "A", self := 0, evs := evs })
+      let arm := "val-" ++ mode ++ (if nm == 0 then "-nomsg" else if vs.all id then "-allacc" else if vs.all (!·) then "-allrej" else "-mixed") ++
+        (if steps.any (fun q => q.1 == 'D') then "-distrust" else "") ++
+        (if steps.any (fun q => q.1 == 'M' && q.2.1 != q.2.2) then "-relayed" else "")
+      if !fl.isEmpty then "propfail " ++ ",".intercalate fl ++ " arm=" ++ arm ++ " expl=unexplained model=" ++ (if mv == vs then "agree" else "differ")
+      else if mv != vs then "diff arm=" ++ arm ++ " model=verdicts"
+      else if its != vs then "diff arm=" ++ arm ++ " model=IsTrustedPeer-disagrees-with-validator"
+      else "ok arm=" ++ arm ++ (if nm == 0 then " trivial" else "")
+    | _, _, _ => "bad-case parse-val"
+  | _ => "bad-case shape-val"
+
+/-! ## comp suite: the composed replica -/
+
+structure CSim where
+  c : CSt := { me := ⟨0, 2⟩ }
+  armed : List Outcome := []
+  fired : Nat := 0
+  hooks : List Hook := []
+  idmap : List (Nat × Nat) := []       -- observed node number of A ↦ model id
+  agree : Bool := true
+  why : String := ""
+  steps : List SetStep := []
+  view : View := []
+  remote : Nat := 0
+  openRecv : Bool := false             -- a remote delta was merged while a batch was open
+  deriving Repr
+
+def CSim.bad (b : CSim) (w : String) : CSim := if b.agree then { b with agree := false, why := w } else b
+
+def parseCDelta (s : String) : Option Delta :=
+  match s.splitOn ":" with
+  | [i, p, e, t] => do pure { id := ← i.toNat?, prio := ← p.toNat?, elems := ← parsePairs e, tombs := ← parsePairs t }
+  | _ => none
+
+def parseCDeltas (s : String) : Option (List Delta) :=
+  if s == "-" then some [] else (s.splitOn "+").mapM parseCDelta
+
+/-- the eager worker: take whatever is queued, commit when in front of `Commit` -/
+def cdrain (cfg : Cfg) : Nat → CSim → CSim
+  | 0, b => b
+  | fuel + 1, b =>
+    match b.c.phase with
+    | .due _ =>
+      let out := match b.armed with
+        | o :: _ => if applicable b.c.pend o then o else .ok
+        | [] => .ok
+      match cstep cfg b.c (.loc (.commit out)) with
+      | some (c', .hooks h) =>
+        cdrain cfg fuel { b with c := c', hooks := b.hooks ++ h, armed := if out == .ok then b.armed else b.armed.drop 1,
+                                 fired := if out == .ok then b.fired else b.fired + 1 }
+      | some (c', _) => cdrain cfg fuel { b with c := c' }
+      | none => b
+    | .idle =>
+      match cstep cfg b.c (.loc (.take true)) with
+      | some (c', _) => cdrain cfg fuel { b with c := c' }
+      | none => b
+
+def cSubmit (bc : BCfg) (b : CSim) (o : BOp) (r : Result) : CSim :=
+  if bc.mode == 'N' then
+    let p : Pend := ({} : Pend).add b.c.rep o
+    let publishes := !(p.tombs.isEmpty && p.elems.isEmpty)
+    let out := match b.armed with
+      | a :: _ => if publishes && applicable p a then a else .ok
+      | [] => .ok
+    let d := b.c.direct o out
+    let b := { b with c := d.1, hooks := b.hooks ++ d.2.2, armed := if out == .ok then b.armed else b.armed.drop 1,
+                      fired := if out == .ok then b.fired else b.fired + 1 }
+    match r, d.2.1 with
+    | .ok, true => b
+    | .err, false => b
+    | _, _ => b.bad "direct-result"
+  else
+    match r, cstep bc.cfg b.c (.loc (.log o)) with
+    | .ok, some (c', .accepted) => cdrain bc.cfg 100 { b with c := c' }
+    | .refused, some (_, .rejected) => b
+    | _, _ => b.bad "log-result"
+
+/-- compare what A published during the step with the model's stream growth, hooks and view -/
+def cObserve (keys : List Key) (b : CSim) (n0 : Nat) (ds : List Delta) (hooks : List Hook) (view : View) : CSim :=
+  let newOut := b.c.out.drop n0
+  let b := if newOut.length != ds.length then b.bad "stream-length" else b
+  let b := (newOut.zip ds).foldl (fun (b : CSim) p =>
+    let b := { b with idmap := (p.2.id, p.1.id) :: b.idmap }
+    let tr := p.2.tombs.map (fun t => (t.1, if t.2 % 2 == 1 then t.2 else ((b.idmap.lookup t.2).getD 9999)))
+    let b := if p.1.elems != p.2.elems then b.bad "delta-elems" else b
+    let b := if dedupPairs p.1.tombs != dedupPairs tr then b.bad "delta-tombs" else b
+    if p.1.prio != p.2.prio then b.bad "delta-prio" else b) b
+  let b := if b.hooks != hooks then b.bad "tracker-calls" else b
+  let b := if viewOf b.c.rep keys != view then b.bad "view" else b
+  { b with hooks := [], view := view,
+           steps := b.steps ++ [{ replica := 0, ops := none, hooks := hooks, before := b.view, after := view }] }
+
+def cRemote (keys : List Key) (b : CSim) (ds : List Delta) (hooks : List Hook) (view : View) : CSim :=
+  let b := match ds with
+    | [] => b
+    | [d] =>
+      if d.id % 2 == 0 then b   -- a node identical to one of A's own (same content, height, parents): known, skipped
+      else
+        let d' := { d with tombs := d.tombs.map (fun t => (t.1, if t.2 % 2 == 1 then t.2 else ((b.idmap.lookup t.2).getD 9999))) }
+        match cstep ⟨1, 1⟩ b.c (.recv [d']) with
+        | some (c', .hooks h) =>
+          { b with c := c', hooks := b.hooks ++ h, remote := b.remote + 1,
+                   openRecv := b.openRecv || !(b.c.pend.elems.isEmpty && b.c.pend.tombs.isEmpty) }
+        | _ => b.bad "recv"
+    | _ => b.bad "remote-step-published-several"
+  cObserve keys b b.c.out.length [] hooks view
+
+inductive CStepS where
+  | loc (o : BOp) | rem (o : BOp) | arm (c : List Outcome) | flush
+  deriving Repr
+
+def parseCSteps : List String → List Nat → Option (List CStepS)
+  | [], _ => some []
+  | st :: rest, vals =>
+    let remote := st.startsWith "r"
+    let body := if remote then dropS st 1 else st
+    if body.startsWith "P" then
+      match vals, ((dropS body 1).splitOn "/").head?.bind String.toNat? with
+      | v :: vs, some c => (parseCSteps rest vs).map (fun l => (if remote then .rem (.put c v) else .loc (.put c v)) :: l)
+      | _, _ => none
+    else if body.startsWith "U" then do
+      let c ← (dropS body 1).toNat?
+      let l ← parseCSteps rest vals
+      pure ((if remote then .rem (.del c) else .loc (.del c)) :: l)
+    else if st == "f" then (parseCSteps rest vals).map (.flush :: ·)
+    else if st.startsWith "!" then do
+      let c ← classOutcome (dropS st 1)
+      let l ← parseCSteps rest vals
+      pure (.arm c :: l)
+    else none
+
+def simComp (bc : BCfg) (keys : List Key) : CSim → List CStepS → List String → Option CSim
+  | b, [], [] => some b
+  | b, .arm c :: st, o :: outs => if o == "!" then simComp bc keys { b with armed := b.armed ++ c } st outs else none
+  | b, .loc op :: st, o :: outs =>
+    match o.splitOn "/" with
+    | [h, d, hk, v] =>
+      match parseRes (dropS h 1), parseCDeltas d, parseHooks hk, parsePairs v with
+      | some r, some ds, some hooks, some view =>
+        if !h.startsWith "L" then none else
+        let n0 := b.c.out.length
+        simComp bc keys (cObserve keys (cSubmit bc b op r) n0 ds hooks view) st outs
+      | _, _, _, _ => none
+    | _ => none
+  | b, .rem _ :: st, o :: outs =>
+    match o.splitOn "/" with
+    | [d, hk, v] =>
+      match parseCDeltas (dropS d 1), parseHooks hk, parsePairs v with
+      | some ds, some hooks, some view => if !d.startsWith "R" then none else simComp bc keys (cRemote keys b ds hooks view) st outs
+      | _, _, _ => none
+    | _ => none
+  | b, .flush :: st, o :: outs =>
+    match o.splitOn "/" with
+    | [f, d, hk, v] =>
+      match listOf parseFiller (dropS f 1), parseCDeltas d, parseHooks hk, parsePairs v with
+      | some fl, some ds, some hooks, some view =>
+        if !f.startsWith "F" then none else
+        let n0 := b.c.out.length
+        -- (after failed commits the padding may leave a new batch open: it is simply still pending, on both sides)
+        let b := fl.foldl (fun b q => cSubmit bc b q.1 q.2) b
+        simComp bc keys (cObserve keys b n0 ds hooks view) st outs
+      | _, _, _, _ => none
+    | _ => none
+  | _, _, _ => none
+
+def answerComp (pre post : List String) : String :=
+  match pre with
+  | [cfgW, script] =>
+    match parseBCfg cfgW, kvArg "vals=" post, kvArg "tr=" post, kvArg "fired=" post, kvArg "fin=" post, kvArg "ex=" post with
+    | some bc, some valsW, some trW, some firedW, some finW, some ex =>
+      match nats valsW, (finW.splitOn "|").mapM parsePairs with
+      | some vals, some finals =>
+        match parseCSteps (splitSemi script) vals with
+        | none => "bad-case script"
+        | some steps =>
+          let outs := splitSemi trW
+          let keys := ((steps.filterMap (fun (s : CStepS) => match s with | .loc o => some o.key | .rem o => some o.key | _ => none)) ++
+            ((finals.flatten : List (Nat × Nat)).map Prod.fst) ++ (List.range 12).map (· + 20)).eraseDups
+          match simComp bc keys {} steps outs with
+          | none => "bad-case trace-does-not-match-script"
+          | some b =>
+            let b := if b.fired != (if firedW == "-" then 0 else firedW.length) then b.bad "fired" else b
+            let b := if finals.head? != some b.view then b.bad "final-view" else b
+            let fl := failed (setClauses { steps := b.steps, finals := finals, exchanged := ex == "1" })
+            let arm := "comp-" ++ toString bc.mode ++ (if bc.mode == 'N' then "" else "-size" ++ toString bc.cfg.maxSize) ++
+              (if b.remote == 0 then "-noremote" else if b.openRecv then "-recv-in-open-batch" else "-recv") ++
+              (if firedW == "-" then "" else "-fail" ++ firedW)
+            if !fl.isEmpty then "propfail " ++ ",".intercalate fl ++ " arm=" ++ arm ++ " expl=unexplained model=" ++
+              (if b.agree then "agree" else "differ:" ++ b.why)
+            else if !b.agree then "diff arm=" ++ arm ++ " model=" ++ b.why
+            else "ok arm=" ++ arm ++ (if b.c.out.isEmpty && b.remote == 0 then " trivial" else "")
+      | _, _ => "bad-case parse-comp-output"
+    | _, _, _, _, _, _ => "bad-case parse-comp"
+  | _ => "bad-case shape-comp"
+
 def answer (ws : List String) : String :=
   match splitArrow ws with
   | none => "bad-case no-arrow"
@@ -680,6 +904,8 @@ def answer (ws : List String) : String :=
     | "set" :: rest => answerSet rest post
     | "batch" :: rest => answerBatch rest post
     | "net" :: rest => answerNet rest post
+    | "val" :: rest => answerVal rest post
+    | "comp" :: rest => answerComp rest post
     | _ => "bad-case unknown-suite"
 
 end CV.C02
